@@ -1,5 +1,6 @@
 import Ecal.Lemmas.DebugCmdSafe
 import Ecal.Lemmas.DebugCmdNoEval
+import Ecal.Lemmas.DebugCmdKeeps
 import Ecal.Gen.C16
 /-!
 # C16 — the debugger command interface is total
@@ -376,5 +377,343 @@ theorem deferred_unlock_holds_lock_while_suspended :
     `visitEvents` / `visitStepInEvents` / `visitStepOutEvents` (thread side) state in the model.
     "unknown" verdicts are not obligations (they amplify the search). -/
 theorem lock_discipline_not_refuted : Ecal.Gen.C16.lockRefuted = [] := by decide
+
+end Ecal.Props.C16
+
+/-! ## Concurrent clients: a pending `inject`, and the linearisation of its two lock sections
+
+In the model a command is one atomic function `handle`. The code justifies that for every
+command except `inject` by the lock fact (`lock_discipline_not_refuted`): such a command touches
+the debugger's tables only inside ONE section of `ed.lock`, and lock sections of different
+clients are disjoint in time, so two such commands issued at once act in one of the two
+orders — there are no other interleavings of two atomic steps. (This reading of the lock fact is
+an assumption about the code, not a theorem.) `inject` is the one command with TWO lock sections
+— look the thread up, then, after an evaluation that holds no lock, set the value — and
+anything may happen in between. The theorems below are about that command. -/
+
+namespace Ecal.Props.C16
+open Ecal.DebugCmd
+
+/-- first lock section of the repaired InjectValue: is the thread suspended? -/
+def injectFirst (tid : Nat) : M Bool :=
+  locked do
+    let s ← getS
+    match s.istates.lookup tid with
+    | none => pure false
+    | some is => pure (!is.running)
+
+theorem restore_lock {t : DbgState} (h : t.lock = 0) : { t with lock := 1 - 1 } = t := by
+  cases t; simp_all
+
+theorem injectFirst_eq {s : DbgState} (tid : Nat) (h : s.lock = 0) :
+    injectFirst tid s = .ok (isSuspended s tid) s := by
+  unfold injectFirst isSuspended
+  cases hl : s.istates.lookup tid <;>
+    simp [locked, bind, getS, pure, h, hl, restore_lock h]
+
+theorem evalExpr_eq {t : DbgState} {o : EvalOutcome} (h : t.lock = 0) (hd : o ≠ .diverges) :
+    ∃ b, evalExpr o t = .ok b t := by
+  cases o with
+  | ok => exact ⟨true, rfl⟩
+  | error => exact ⟨false, rfl⟩
+  | visits r => exact ⟨r, by simp [evalExpr, h]⟩
+  | diverges => exact (hd rfl).elim
+
+/-- the repaired InjectValue, section by section -/
+theorem injectValue_phases (env : Env) (tid : Nat) (v e : Str) {s : DbgState} (h : s.lock = 0)
+    (hg : s.globalScope = true) :
+    injectValue repaired env tid v e s =
+      if isSuspended s tid = false then .ok true s
+      else match evalExpr (env.eval e) s with
+        | .ok ok s2 => if ok = false then .ok true s2 else injectSecond env tid v s2
+        | .panic p s2 => .panic p s2
+        | .deadlock s2 => .deadlock s2
+        | .evaluating s2 => .evaluating s2 := by
+  simp only [injectValue, repaired, bind, getS, hg, pure, ↓reduceIte, Bool.not_true, Bool.false_eq_true]
+  unfold isSuspended
+  cases hl : s.istates.lookup tid with
+  | none => simp [locked, h, hl, restore_lock h]
+  | some is =>
+    cases hr : is.running
+    · simp only [locked, h, hl, ne_eq, not_true_eq_false, ↓reduceIte, hr, Bool.not_false, restore_lock h,
+        Bool.not_true, Bool.false_eq_true, Bool.true_eq_false]
+      cases evalExpr (env.eval e) s with
+      | ok ok s2 => cases ok <;> simp
+      | panic p s2 => rfl
+      | deadlock s2 => rfl
+      | evaluating s2 => rfl
+    · simp [locked, h, hl, hr, restore_lock h]
+
+/-- `inject` with anything in between its two lock sections: `mid` is whatever other clients
+    and threads did to the debugger meanwhile (any composition of commands and evaluator events) -/
+def injectInterleaved (env : Env) (tid : Nat) (v e : Str) (mid : DbgState → DbgState) : M Bool := fun s =>
+  match injectFirst tid s with
+  | .ok b s1 =>
+    if b = false then .ok true (mid s1)
+    else match evalExpr (env.eval e) (mid s1) with
+      | .ok ok s2 => if ok = false then .ok true s2 else injectSecond env tid v s2
+      | .panic p s2 => .panic p s2
+      | .deadlock s2 => .deadlock s2
+      | .evaluating s2 => .evaluating s2
+  | .panic p s1 => .panic p s1
+  | .deadlock s1 => .deadlock s1
+  | .evaluating s1 => .evaluating s1
+
+theorem injectSecond_not_suspended (env : Env) (tid : Nat) (v : Str) {t : DbgState} (h : t.lock = 0)
+    (hs : isSuspended t tid = false) : injectSecond env tid v t = .ok true t := by
+  unfold isSuspended at hs
+  unfold injectSecond
+  cases hl : t.istates.lookup tid with
+  | none => simp [locked, bind, getS, pure, h, hl, restore_lock h]
+  | some is =>
+    rw [hl] at hs
+    have hr : is.running = true := by simpa using hs
+    simp [locked, bind, getS, pure, h, hl, hr, restore_lock h]
+
+/-- **`inject` linearises.** Whatever happens between the two lock sections of `inject`
+    (`mid`: any transformation of the debugger state that leaves the lock free and the global scope
+    reference alone — in particular any sequence of other commands and evaluator events), the reply
+    and the final state are those of an ATOMIC `inject`
+    * issued BEFORE all of it, if the first section found no suspended thread (it answers "no
+      suspended thread" and has changed nothing), and
+    * issued AFTER all of it, if the first section found the thread suspended — the second
+      section looks the thread up again under the write lock, so a thread that was continued or
+      has finished meanwhile yields the same error the late atomic `inject` gives.
+    Hypothesis: the expression returns (`≠ diverges`; a pending inject is the subject of
+    `pending_inject_never_blocks`). -/
+theorem inject_linearises (env : Env) (tid : Nat) (v e : Str) (mid : DbgState → DbgState) (s : DbgState)
+    (h : s.lock = 0) (hg : s.globalScope = true) (hm : (mid s).lock = 0)
+    (hmg : (mid s).globalScope = true) (hd : env.eval e ≠ .diverges) :
+    (isSuspended s tid = false →
+      injectInterleaved env tid v e mid s = .ok true (mid s) ∧
+      injectValue repaired env tid v e s = .ok true s) ∧
+    (isSuspended s tid = true →
+      injectInterleaved env tid v e mid s = injectValue repaired env tid v e (mid s)) := by
+  refine ⟨fun hs => ?_, fun hs => ?_⟩
+  · refine ⟨?_, ?_⟩
+    · simp [injectInterleaved, injectFirst_eq tid h, hs]
+    · rw [injectValue_phases env tid v e h hg]; simp [hs]
+  · rw [injectValue_phases env tid v e hm hmg]
+    simp only [injectInterleaved, injectFirst_eq tid h, hs, Bool.true_eq_false, ↓reduceIte]
+    obtain ⟨b, hb⟩ := evalExpr_eq (o := env.eval e) hm hd
+    rw [hb]
+    cases hs2 : isSuspended (mid s) tid
+    · cases b
+      · simp
+      · simp [injectSecond_not_suspended env tid v hm hs2]
+    · simp
+
+/-- non-vacuity (all hypotheses of `inject_linearises` hold): the thread is suspended when the
+    first section looks, `cont 1 resume` from another client releases it before the second section —
+    the interleaved `inject` equals the atomic one issued after the `cont` -/
+example : injectInterleaved anyEnv 1 (str "x") (str "1") (fun s => (handle anyEnv s (str "cont 1 resume")).1)
+      suspendedAtTop
+    = injectValue repaired anyEnv 1 (str "x") (str "1") (handle anyEnv suspendedAtTop (str "cont 1 resume")).1 :=
+  (inject_linearises anyEnv 1 (str "x") (str "1") (fun s => (handle anyEnv s (str "cont 1 resume")).1)
+    suspendedAtTop rfl rfl (by decide) (by decide) (by simp [anyEnv])).2 (by decide)
+
+/-- what any number of command lines of other clients make of a state -/
+def afterLines (cs : List (Env × Str)) (s : DbgState) : DbgState :=
+  cs.foldl (fun t c => (handle c.1 t c.2).1) s
+
+theorem afterLines_inv (cs : List (Env × Str)) {s : DbgState} (h : Inv s) : Inv (afterLines cs s) := by
+  induction cs generalizing s with
+  | nil => exact h
+  | cons c rest ih => exact ih (handle_preserves_inv c.1 s c.2 h)
+
+theorem afterLines_globalScope (cs : List (Env × Str)) (s : DbgState) :
+    (afterLines cs s).globalScope = s.globalScope := by
+  induction cs generalizing s with
+  | nil => rfl
+  | cons c rest ih =>
+    simp only [afterLines, List.foldl_cons] at ih ⊢
+    rw [ih]
+    exact handleG_keeps_globalScope repaired c.1 s c.2
+
+/-- **`inject` linearises among the commands of other clients.** In every state satisfying the
+    invariant (global scope given), for ANY sequence `cs` of command lines that other clients get
+    answered between the two lock sections of an `inject` whose expression returns: the reply and
+    final state of the `inject` are those of an atomic `inject` issued before all of `cs` (the
+    thread was not suspended when the first section looked) or after all of `cs` (it was). So
+    with `handle` as the atomic step of every other command (lock fact), every concurrent issue
+    of `inject` and other commands is a sequence of `handle` steps — to which
+    `command_interface_total` applies: the debugger keeps answering. -/
+theorem inject_linearises_among_commands (env : Env) (tid : Nat) (v e : Str) (cs : List (Env × Str))
+    (s : DbgState) (h : Inv s) (hg : s.globalScope = true) (hd : env.eval e ≠ .diverges) :
+    (isSuspended s tid = false →
+      injectInterleaved env tid v e (afterLines cs) s = .ok true (afterLines cs s) ∧
+      injectValue repaired env tid v e s = .ok true s) ∧
+    (isSuspended s tid = true →
+      injectInterleaved env tid v e (afterLines cs) s = injectValue repaired env tid v e (afterLines cs s)) :=
+  inject_linearises env tid v e (afterLines cs) s h.2 hg (afterLines_inv cs h).2
+    (by rw [afterLines_globalScope]; exact hg) hd
+
+/-- non-vacuity: the hypotheses hold for a suspended thread and two lines of another client -/
+example : Inv suspendedAtTop ∧ suspendedAtTop.globalScope = true ∧ isSuspended suspendedAtTop 1 = true ∧
+    isSuspended (afterLines [(anyEnv, str "status"), (anyEnv, str "cont 1 stepover")] suspendedAtTop) 1 = false := by
+  refine ⟨reachable_inv ?_, rfl, by decide, by decide⟩
+  exact .event (.advance 1 0 (.suspended false true true [])) (.event .setRefs (.event (.start 1) (.init true []) rfl) rfl) rfl
+
+/-! ### a pending `inject` has changed nothing -/
+
+/-- `m` started with the lock free can only be found `evaluating` in the very state it started in -/
+def EvalSame {α : Type} (m : M α) : Prop := ∀ s t, s.lock = 0 → m s = .evaluating t → t = s
+
+/-- `m` returns in the state it started in -/
+def StatePure {α : Type} (m : M α) : Prop := ∀ s a t, m s = .ok a t → t = s
+
+theorem evalSame_of_noEval {α : Type} {m : M α} (h : NoEval m) : EvalSame m :=
+  fun s t _ hr => (h s t hr).elim
+
+theorem evalSame_bind_pure {α β : Type} {m : M α} {f : α → M β} (hp : StatePure m) (hn : NoEval m)
+    (hf : ∀ a, EvalSame (f a)) : EvalSame (m >>= f) := by
+  intro s t hl hr
+  simp only [bind] at hr
+  cases hm : m s with
+  | ok a s1 =>
+    rw [hm] at hr
+    have := hp s a s1 hm
+    subst this
+    exact hf a _ t hl hr
+  | panic p s1 => rw [hm] at hr; cases hr
+  | deadlock s1 => rw [hm] at hr; cases hr
+  | evaluating s1 => exact (hn s s1 hm).elim
+
+theorem evalSame_bind_noEval {α β : Type} {m : M α} {f : α → M β} (hm : EvalSame m) (hf : ∀ a, NoEval (f a)) :
+    EvalSame (m >>= f) := by
+  intro s t hl hr
+  simp only [bind] at hr
+  cases h1 : m s with
+  | ok a s1 => rw [h1] at hr; exact (hf a s1 t hr).elim
+  | panic p s1 => rw [h1] at hr; cases hr
+  | deadlock s1 => rw [h1] at hr; cases hr
+  | evaluating s1 => rw [h1] at hr; injection hr with h2; rw [← h2]; exact hm s s1 hl h1
+
+theorem statePure_idx {α : Type} (l : List α) (i : Nat) (site : String) : StatePure (idx l i site) := by
+  intro s a t h
+  unfold idx at h
+  cases hx : l[i]? with
+  | none => rw [hx] at h; cases h
+  | some b => rw [hx] at h; cases h; rfl
+
+theorem statePure_sliceFrom {α : Type} (l : List α) (i : Nat) (site : String) :
+    StatePure (sliceFrom l i site) := by
+  intro s a t h
+  unfold sliceFrom at h
+  by_cases hc : i ≤ l.length
+  · rw [if_pos hc] at h; cases h; rfl
+  · rw [if_neg hc] at h; cases h
+
+theorem evalSame_injectValue (env : Env) (tid : Nat) (v e : Str) :
+    EvalSame (injectValue repaired env tid v e) := by
+  intro s t hl hr
+  cases hg : s.globalScope
+  · simp [injectValue, bind, getS, pure, hg] at hr
+  · rw [injectValue_phases env tid v e hl hg] at hr
+    split at hr
+    · cases hr
+    · cases hs : env.eval e with
+      | ok => simp [hs, evalExpr] at hr; exact (noEval_injectSecond env tid v s t hr).elim
+      | error => simp [hs, evalExpr] at hr
+      | visits r =>
+        simp only [hs, evalExpr, hl, ne_eq, not_true_eq_false, ↓reduceIte] at hr
+        cases r
+        · simp at hr
+        · simp at hr; exact (noEval_injectSecond env tid v s t hr).elim
+      | diverges => simp only [hs, evalExpr] at hr; cases hr; rfl
+
+theorem evalSame_runInject (env : Env) (args : List Str) : EvalSame (runInject repaired env args) := by
+  unfold runInject
+  split
+  · exact evalSame_of_noEval (noEval_pure _)
+  · refine evalSame_bind_pure (statePure_idx _ _ _) (noEval_idx _ _ _) fun a0 => ?_
+    split
+    · exact evalSame_of_noEval (noEval_pure _)
+    · refine evalSame_bind_pure (statePure_idx _ _ _) (noEval_idx _ _ _) fun a1 => ?_
+      refine evalSame_bind_pure (statePure_sliceFrom _ _ _) (noEval_sliceFrom _ _ _) fun rest => ?_
+      exact evalSame_bind_noEval (evalSame_injectValue env _ _ _) fun _ => noEval_pure _
+
+theorem evalSame_run (env : Env) (c : Cmd) (args : List Str) : EvalSame (c.run repaired env args) := by
+  cases c <;> simp only [Cmd.run]
+  · exact evalSame_of_noEval (noEval_runSetBreak _ _)
+  · exact evalSame_of_noEval (noEval_runBreakOnStart _)
+  · exact evalSame_of_noEval (noEval_runCont _ _)
+  · exact evalSame_of_noEval (noEval_runDescribe _ _)
+  · exact evalSame_of_noEval (noEval_runSetBreak _ _)
+  · exact evalSame_of_noEval (noEval_runExtract _)
+  · exact evalSame_runInject env _
+  · exact evalSame_of_noEval (noEval_lockState _)
+  · exact evalSame_of_noEval (noEval_runRmBreak _)
+  · exact evalSame_of_noEval (noEval_statusOf _)
+
+theorem evalSame_handleInput (env : Env) (line : Str) : EvalSame (handleInput repaired env line) := by
+  unfold handleInput
+  dsimp only
+  split
+  · refine evalSame_bind_pure (statePure_idx _ _ _) (noEval_idx _ _ _) fun a0 => ?_
+    split
+    · split
+      · exact evalSame_bind_pure (statePure_sliceFrom _ _ _) (noEval_sliceFrom _ _ _) fun _ => evalSame_run env _ _
+      · exact evalSame_run env _ _
+    · exact evalSame_of_noEval (noEval_pure _)
+  · exact evalSame_of_noEval (noEval_pure _)
+
+/-- **A pending `inject` has changed nothing.** If a command has not returned (reply
+    `evaluating`), the state every other client sees is exactly the state the command was issued
+    in: the first lock section of InjectValue only looked, the evaluation runs as a thread of its
+    own that the debugger does not record. -/
+theorem pending_inject_changed_nothing (env : Env) (s : DbgState) (line : Str) (h : s.lock = 0)
+    (hp : (handle env s line).2 = .evaluating) : (handle env s line).1 = s := by
+  unfold handle handleG at hp ⊢
+  cases hr : handleInput repaired env line s with
+  | evaluating t => simp only [hr]; exact evalSame_handleInput env line s t h hr
+  | ok o t =>
+    rw [hr] at hp
+    simp only [Out.reply] at hp
+    split at hp
+    · cases hp
+    · split at hp <;> cases hp
+  | panic p t => rw [hr] at hp; cases hp
+  | deadlock t => rw [hr] at hp; cases hp
+
+/-- non-vacuity: the pending `inject` of the earlier example left the state as it was -/
+example : (handle divergingEnv suspendedAtTop injectLine).1 = suspendedAtTop :=
+  pending_inject_changed_nothing divergingEnv suspendedAtTop injectLine rfl (by decide)
+
+/-- **A pending `inject` blocks nobody.** If `inject` has not returned (reply `evaluating`), the
+    state every other client sees satisfies the invariant with the lock free; hence every further
+    command line of any client gets a result or an error (or is itself an `inject` that evaluates),
+    leaves the lock free, and `status` answers — for any number of further commands and evaluator
+    events, since all of them preserve the invariant (`reachable_inv`). -/
+theorem pending_inject_never_blocks (env : Env) (s : DbgState) (line : Str) (h : Inv s)
+    (_hp : (handle env s line).2 = .evaluating) :
+    Inv (handle env s line).1 ∧ (handle env s line).1.lock = 0 ∧
+    (∀ env' line', (Answers (handle env' (handle env s line).1 line').2 ∨
+        (handle env' (handle env s line).1 line').2 = .evaluating) ∧
+      (handle env' (handle env s line).1 line').1.lock = 0) ∧
+    (∀ env', (handle env' (handle env s line).1 [115, 116, 97, 116, 117, 115]).2 = .ok .status) := by
+  have hi := handle_preserves_inv env s line h
+  exact ⟨hi, hi.2,
+    fun env' line' => ⟨handle_never_panics env' _ line' hi, lock_released env' _ line' hi⟩,
+    fun env' => still_answers env env' s line h⟩
+
+/-- non-vacuity: an `inject` whose expression does not return is pending -/
+example : (handle divergingEnv suspendedAtTop injectLine).2 = .evaluating := by decide
+
+/-- **The late completion of a pending `inject` is always possible and harmless**: in every
+    state satisfying the invariant — whatever commands and events came in between — the second
+    section of InjectValue runs to its end (no panic, no deadlock, it does not evaluate again)
+    and the invariant holds afterwards. -/
+theorem inject_completion_enabled (s : DbgState) (h : Inv s) (pathOk : Bool) (tid : Nat) (v : Str) :
+    ∃ s', applyEvent s (.injectCompletes pathOk tid v) = some s' ∧ Inv s' := by
+  have hw := injectSecond_safe { eval := fun _ => .ok, setPathOk := fun _ _ => pathOk } tid v (s := s) h.1 h.2
+  have hn := noEval_injectSecond { eval := fun _ => .ok, setPathOk := fun _ _ => pathOk } tid v s
+  unfold wp at hw
+  simp only [applyEvent]
+  cases hr : injectSecond { eval := fun _ => .ok, setPathOk := fun _ _ => pathOk } tid v s with
+  | ok a t => rw [hr] at hw; exact ⟨t, rfl, hw⟩
+  | panic p t => rw [hr] at hw; exact hw.elim
+  | deadlock t => rw [hr] at hw; exact hw.elim
+  | evaluating t => exact (hn t hr).elim
 
 end Ecal.Props.C16
